@@ -241,6 +241,16 @@ func matchesSearchCriteria(msg messageInfo, tokens []string, charset string, use
 
 // evaluateTokens evaluates a list of search tokens
 func evaluateTokens(msg messageInfo, tokens []string, charset string, userID int64, deps ServerDeps) bool {
+	// The length of the key that starts at each token is computed once for
+	// the whole list. NOT and OR used to measure their operands again at
+	// every nesting level, which made one line of n nested keys cost n*n/2
+	// steps per message.
+	return evaluateKeys(msg, tokens, searchKeyLengths(tokens), charset, userID, deps)
+}
+
+// evaluateKeys evaluates the search keys in tokens; keyLen[i] is the number of
+// tokens of the key that starts at tokens[i] (see searchKeyLengths).
+func evaluateKeys(msg messageInfo, tokens []string, keyLen []int, charset string, userID int64, deps ServerDeps) bool {
 	i := 0
 	for i < len(tokens) {
 		token := strings.ToUpper(tokens[i])
@@ -353,25 +363,27 @@ func evaluateTokens(msg messageInfo, tokens []string, charset string, userID int
 		case "NOT":
 			// NOT <search-key>: the complete key, which may itself be NOT,
 			// OR, a key with arguments or a parenthesised list
-			n := searchKeyLength(tokens, i+1)
+			n := keyLengthAt(keyLen, i+1)
 			if i+1+n > len(tokens) {
 				return false
 			}
-			if evaluateTokens(msg, tokens[i+1:i+1+n], charset, userID, deps) {
+			if evaluateKeys(msg, tokens[i+1:i+1+n], keyLen[i+1:i+1+n], charset, userID, deps) {
 				return false
 			}
 			i += 1 + n
 
 		case "OR":
 			// OR <search-key1> <search-key2>: two complete keys
-			n1 := searchKeyLength(tokens, i+1)
-			n2 := searchKeyLength(tokens, i+1+n1)
+			n1 := keyLengthAt(keyLen, i+1)
+			n2 := keyLengthAt(keyLen, i+1+n1)
 			if i+1+n1+n2 > len(tokens) {
 				return false
 			}
-			key1Tokens := tokens[i+1 : i+1+n1]
-			key2Tokens := tokens[i+1+n1 : i+1+n1+n2]
-			if !evaluateTokens(msg, key1Tokens, charset, userID, deps) && !evaluateTokens(msg, key2Tokens, charset, userID, deps) {
+			// a complete key contains its nested keys completely, so the
+			// lengths computed for the whole list hold inside it
+			k1, k2 := i+1, i+1+n1
+			if !evaluateKeys(msg, tokens[k1:k1+n1], keyLen[k1:k1+n1], charset, userID, deps) &&
+				!evaluateKeys(msg, tokens[k2:k2+n2], keyLen[k2:k2+n2], charset, userID, deps) {
 				return false
 			}
 			i += 1 + n1 + n2
@@ -496,30 +508,41 @@ func evaluateTokens(msg messageInfo, tokens []string, charset string, userID int
 
 // Helper functions for search criteria evaluation
 
-// searchKeyLength returns the number of tokens of the search key that starts at
-// tokens[i] (RFC 3501 search-key): NOT is followed by one key and OR by two,
-// HEADER by a field name and a string, the other keys with an argument by one
-// token; everything else, a parenthesised list included, is a single token.
-// A key that is cut short by the end of the tokens gets the length it should
-// have had, so that the caller sees that it does not fit.
-func searchKeyLength(tokens []string, i int) int {
-	if i >= len(tokens) {
+// searchKeyLengths returns, for every i, the number of tokens of the search key
+// that starts at tokens[i] (RFC 3501 search-key): NOT is followed by one key
+// and OR by two, HEADER by a field name and a string, the other keys with an
+// argument by one token; everything else, a parenthesised list included, is a
+// single token. A key that is cut short by the end of the tokens gets the
+// length it should have had, so that the caller sees that it does not fit.
+// The table is filled from the last token to the first: one step per token.
+func searchKeyLengths(tokens []string) []int {
+	keyLen := make([]int, len(tokens))
+	for i := len(tokens) - 1; i >= 0; i-- {
+		token := strings.ToUpper(tokens[i])
+		switch {
+		case token == "NOT":
+			keyLen[i] = 1 + keyLengthAt(keyLen, i+1)
+		case token == "OR":
+			n1 := keyLengthAt(keyLen, i+1)
+			keyLen[i] = 1 + n1 + keyLengthAt(keyLen, i+1+n1)
+		case token == "HEADER":
+			keyLen[i] = 3
+		case requiresArgument(token):
+			keyLen[i] = 2
+		default:
+			keyLen[i] = 1
+		}
+	}
+	return keyLen
+}
+
+// keyLengthAt is keyLen[i]; a key that would start after the last token counts
+// as one (missing) token.
+func keyLengthAt(keyLen []int, i int) int {
+	if i >= len(keyLen) {
 		return 1
 	}
-	token := strings.ToUpper(tokens[i])
-	switch token {
-	case "NOT":
-		return 1 + searchKeyLength(tokens, i+1)
-	case "OR":
-		n1 := searchKeyLength(tokens, i+1)
-		return 1 + n1 + searchKeyLength(tokens, i+1+n1)
-	case "HEADER":
-		return 3
-	}
-	if requiresArgument(token) {
-		return 2
-	}
-	return 1
+	return keyLen[i]
 }
 
 func isSequenceSet(token string) bool {
